@@ -57,6 +57,19 @@ def problem(name):
         f = lambda t, y, **kw: y * np.cos(t)
         ex = lambda t: np.array([np.exp(np.sin(LD(t)))], dtype=LD)               # y(0) = 1
         return f, ex, (lambda a, b: 2.0 * float(np.e ** 2)), (lambda t, y, **kw: np.array([[np.cos(t)]]))
+    if name.startswith("stiff:"):
+        # stiff linear decay y' = lambda y (a damped rotation as a real 2x2 block), lambda given in the direction of travel: what implicit methods are for.
+        # The problem is anchored at t = 0, where |y| = 1; errors never grow (kappa = 1)
+        _, re_, im_ = name.split(":")
+        lam = complex(float(re_), float(im_))
+        Mm = np.array([[lam.real, -lam.imag], [lam.imag, lam.real]])
+        f = lambda t, y, sgn=1.0, **kw: sgn * (Mm.astype(y.dtype) @ y)
+
+        def ex(t):
+            tt = abs(LD(t))
+            c = np.exp(LD(lam.real) * tt) * np.array([np.cos(LD(lam.imag) * tt), np.sin(LD(lam.imag) * tt)], dtype=LD)
+            return c
+        return f, ex, (lambda a, b: 1.0), None
     raise KeyError(name)
 
 
@@ -67,18 +80,23 @@ def build(case, wrap_step=False):
     dtype = lc.DT[case.get("dtype", "float64")]
     amp = case.get("amp", 1.0)          # linear problems only: the solution scales with the initial state
     y0 = np.asarray(ex(t0), dtype=dtype) * dtype(amp)
+    consts_ = None
+    if case["problem"].startswith("stiff:"):
+        # y(t) = exp(lambda |t|) (1, 0) rotated: integrating from 0 toward -T with the reflected right-hand side is the same decay
+        consts_ = dict(sgn=(1.0 if tf > t0 else -1.0))
     rhs = de.DiffRHS(f)
     if case.get("jac", True) and jac is not None:
         rhs.hook_jacobian_call(jac)
     via = case.get("via", "ctor")
+    ckw = dict(constants=consts_) if consts_ is not None else {}
     rt_, at_ = dtype(case.get("rtol", case["tol"])), dtype(case.get("atol", case["tol"]))
     if via == "ctor":
-        a = de.OdeSystem(rhs, y0=y0, t=(dtype(t0), dtype(tf)), dt=dtype(case["dt0"]), rtol=rt_, atol=at_)
+        a = de.OdeSystem(rhs, y0=y0, t=(dtype(t0), dtype(tf)), dt=dtype(case["dt0"]), rtol=rt_, atol=at_, **ckw)
         a.method = method_of(case["method"])
     else:
         # the tolerances reach the system through its setters: the system is built with loose ones (1e-2) and tightened afterwards - before the method is
         # chosen, after it, or after a whole loose run and a reset.  What the run is judged against is what the system reports as its tolerances.
-        a = de.OdeSystem(rhs, y0=y0, t=(dtype(t0), dtype(tf)), dt=dtype(case["dt0"]), rtol=dtype(1e-2), atol=dtype(1e-2))
+        a = de.OdeSystem(rhs, y0=y0, t=(dtype(t0), dtype(tf)), dt=dtype(case["dt0"]), rtol=dtype(1e-2), atol=dtype(1e-2), **ckw)
         if via == "before":
             a.rtol = rt_; a.atol = at_
             a.method = method_of(case["method"])
@@ -373,6 +391,12 @@ def run(ctx):
                 if ctx.quick and m in ("RadauIIA19",):
                     continue
                 cases.append(dict(section="acc", method=m, problem="rotation", span=[t0, tf], tol=tol, dt0=1e-2, via=via))
+    # stiff linear decay (what the implicit pairs are for): real and oscillatory eigenvalues of size 1e2 .. 1e6, spans of 10 time units from 0 in both directions
+    for m in ("RadauIIA5", "LobattoIIIC4") + (() if ctx.quick else ("RadauIIA19",)):
+        for lam in ((-1e2, 0.0), (-1e4, 0.0), (-1e6, 0.0), (-10.0, 5.0), (-2e5, 1e5)):
+            for tf in (10.0, -10.0):
+                for dt0 in (1.0, 1e-3):
+                    cases.append(dict(section="acc", method=m, problem="stiff:%g:%g" % lam, span=[0.0, tf], tol=1e-6, rtol=1e-6, atol=1e-9, dt0=dt0, jac=False))
     # unequal tolerances on solutions far from unit size (the controller must weigh atol and rtol as documented: atol + rtol*|y|)
     for m in PAIRS + RICH[:3]:
         for prob in ("rotation", "damped"):
